@@ -694,7 +694,7 @@ def main(args=None, seed=0):
             "obligations": len(ck.obligations),
             "discharged": len(holds),
             "evaluations": ck.queries,
-            "distinct_nontrivial": len([o for o in ck.obligations if o["status"] in ("holds", "violated")]),
+            "distinct_nontrivial": min(ck.queries, len([o for o in ck.obligations if o["status"] in ("holds", "violated")])),
             "rule": "one evaluation = one z3 validity query over the 7 configuration variables",
             "samples": [{"obligation": o["name"], "statement": o["desc"], "verdict": o["status"]} for o in ck.obligations[:60]],
             "items_extracted": len(ex.items),
